@@ -250,3 +250,15 @@ func concatSegs(menu []namedSeg, idx []int) ([]byte, []string) {
 	}
 	return s, names
 }
+
+// SequentialFraming is the differential oracle used by the pipeline
+// properties: what the implementation's own framing loop delivers for the
+// bytes when run in one goroutine over a pre-filled closed channel.
+func SequentialFraming(stream []byte) ([]ref.Seg, string) {
+	out, fault := implStream(stream)
+	segs := make([]ref.Seg, len(out))
+	for i, d := range out {
+		segs[i] = ref.Seg{Type: d.Type, Raw: d.Raw}
+	}
+	return segs, fault
+}
